@@ -9,14 +9,19 @@ comps="$*"
 mkdir -p ocaml/build
 build_one() {
   c=$1; lc=$(echo "$c" | tr 'A-Z' 'a-z')
+  # one builder per component at a time (two runs of the same check may both find the driver stale); the driver is
+  # replaced atomically, so a run that is using it meanwhile keeps a complete executable
+  exec 9>"ocaml/build/.lock.$lc"
+  flock 9
   d=ocaml/build/$lc
   rm -rf "$d"; mkdir -p "$d"
   ( cd "$d" && timeout 600 coqc -Q "$V/coq" Zix "$V/coq/Extract$c.v" >extract.log 2>&1 ) || { cat "$d/extract.log"; exit 1; }
   cp ocaml/zutil.ml "$d/"
   [ -f "$d/String.ml" ] && cp ocaml/zstring.ml "$d/" || true
   cp "ocaml/drv_$lc.ml" "$d/"
-  ( cd "$d" && ocamlfind ocamlopt -O2 -w -a $(ocamlfind ocamldep -sort *.mli *.ml) -o "../drv_$lc" >build.log 2>&1 ) || \
-  ( cd "$d" && ocamlfind ocamlopt -w -a $(ocamlfind ocamldep -sort *.mli *.ml) -o "../drv_$lc" >build.log 2>&1 ) || { cat "$d/build.log"; exit 1; }
+  ( cd "$d" && ocamlfind ocamlopt -O2 -w -a $(ocamlfind ocamldep -sort *.mli *.ml) -o "drv_$lc.new" >build.log 2>&1 ) || \
+  ( cd "$d" && ocamlfind ocamlopt -w -a $(ocamlfind ocamldep -sort *.mli *.ml) -o "drv_$lc.new" >build.log 2>&1 ) || { cat "$d/build.log"; exit 1; }
+  mv -f "$d/drv_$lc.new" "ocaml/build/drv_$lc"
   echo "built ocaml/build/drv_$lc"
 }
 pids=""
